@@ -112,9 +112,8 @@ class _Scope(Contract):
         g = st.ghost
         if aw.kind == "disp-enter":
             g["disp_entered"] = g.get("disp_entered", 0) + 1
-            cv = self.cvs(it)["TaskGroupContext"]
-            st.check("C06-P3:task-group-is-current-while-disposables-are-entered",
-                     z3.And(L.cv_is_set(it, cv), L.cv_value(it, cv) == st.get(self.tgc, "_group")))
+            st.check("C06-P3:task-group-is-current-while-disposables-are-entered(a-spawn-goes-into-this-scope's-group)",
+                     self.spawns_into(it, self.the_group(it)))
             j = st.fork(f"await#{idx}:disposables-enter", [("entered", True), ("failed", True), ("cancelled", True)])
             if j == 0:
                 r = st.sym_ref("disposables_state", "list")
@@ -186,6 +185,37 @@ class _Scope(Contract):
             st.put(obj, "_disposables", V.VNone)
             self.disp = None
 
+    def the_group(self, it):
+        """The asyncio TaskGroup created for this scope (whatever object keeps it)."""
+        tgs = it.st.ghost.get("$taskgroups", [])
+        return tgs[0] if tgs else None
+
+    def spawn_probe(self, it):
+        """Where would ctx.spawn put a task right now?  Runs the real TaskGroupContext.run."""
+        st = it.st
+        tinfo = repo_class(it, "context/tasks.py", "TaskGroupContext")
+        f = it.class_attr(tinfo, "run", V.VCls(z3.IntVal(tinfo.cid)))
+        fn = st.reg_fun(OracleV("probe_function", is_async=True))
+        n0 = len(st.ghost.get("$tasks", []))
+        st.ghost["$tg_probe"] = True
+        try:
+            it.call(f, CallArgs([fn]))
+        except PyRaise:
+            return None
+        finally:
+            st.ghost["$tg_probe"] = False
+        tasks = st.ghost.get("$tasks", [])
+        if len(tasks) != n0 + 1:
+            return None
+        t = tasks.pop()
+        return t
+
+    def spawns_into(self, it, tg):
+        t = self.spawn_probe(it)
+        if t is None or tg is None or t["via"] is None:
+            return z3.BoolVal(False)
+        return z3.And(z3.BoolVal(t["name"] == "TaskGroup.create_task"), t["via"] == tg)
+
     def vars_restored(self, it, tag, prop="C02"):
         for k, var in self.cv.items():
             it.st.check(f"{prop}-{tag}:{k}-variable-is-what-it-was-before-the-block", cv_same(it, var, self.snap0[k]))
@@ -216,7 +246,7 @@ class AsyncScope(_Scope):
         except PyRaise as pr:
             st.labels.append("enter:raise")
             self.vars_restored(it, "P2:enter-failed")
-            tg = st.get(self.tgc, "_group")
+            tg = self.the_group(it)
             entered = V.bval(st.get(tg, "$tg_entered"))
             st.check("C02-P2:enter-failed:task-group-does-not-stay-entered",
                      z3.Implies(entered, V.bval(st.get(tg, "$tg_exited"))))
@@ -233,10 +263,9 @@ class AsyncScope(_Scope):
         st.labels.append("enter:return")
         st.check("C08-P5:disposables-entered-exactly-once-before-the-body",
                  z3.BoolVal(g.get("disp_entered", 0) == (1 if self.disp is not None else 0)))
-        tg = st.get(self.tgc, "_group")
-        st.check("C06-P3:group-entered-and-current-inside-the-block",
-                 z3.And(V.bval(st.get(tg, "$tg_entered")), L.cv_is_set(it, self.cv["TaskGroupContext"]),
-                        L.cv_value(it, self.cv["TaskGroupContext"]) == tg))
+        tg = self.the_group(it)
+        st.check("C06-P3:group-entered-and-current-inside-the-block(a-spawn-goes-into-this-scope's-group)",
+                 z3.And(V.bval(st.get(tg, "$tg_entered")), self.spawns_into(it, tg)))
         st.check("C02-P0:state-and-metrics-of-the-scope-are-current-inside-the-block",
                  z3.And(L.cv_is_set(it, self.cv["StateContext"]), L.cv_is_set(it, self.cv["MetricsContext"]),
                         L.cv_value(it, self.cv["MetricsContext"]) == st.get(self.mc, "_metrics"),
@@ -281,7 +310,7 @@ class AsyncScope(_Scope):
         g = st.ghost
         et, ev_, tb = self.exc_details
         self.vars_restored(it, "P1:exit")
-        tg = st.get(self.tgc, "_group")
+        tg = self.the_group(it)
         st.check("C06-P2:task-group-exit-was-awaited-on-this-path", V.bval(st.get(tg, "$tg_exited")))
         tge = [e for e in st.events if e[0] == "tg-exit"]
         st.check("C06-P2:task-group-received-the-body-exception-details",
